@@ -226,3 +226,48 @@ def effort_factor(prop):
     if PIPELINE & set(ch) or any(f not in PIPELINE and not f.startswith("src/callbacks/") for f in ch):
         return 2, ch
     return 1, ch
+
+
+# ---- source-literal dictionary ------------------------------------------------------------------------------------------------
+def source_literals():
+    """every integer literal of /repo's sources (comments removed; `verif_hooks.rs` excluded): a change that special-cases a height, a
+    size, a count or a version has to write that number somewhere"""
+    out = set()
+    root = os.path.join(C.REPO, "src")
+    for d, _dirs, files in os.walk(root):
+        for f in files:
+            if not f.endswith(".rs") or f == "verif_hooks.rs":
+                continue
+            txt = open(os.path.join(d, f), errors="replace").read()
+            txt = re.sub(r"/\*.*?\*/", "", txt, flags=re.S)
+            txt = re.sub(r"//[^\n]*", "", txt)
+            txt = re.sub(r'"(?:\\.|[^"\\])*"', '""', txt)          # string literals (hashes, messages) are not numbers of the code
+            for m in re.finditer(r"(?<![A-Za-z0-9_.])(0x[0-9a-fA-F_]+|0b[01_]+|0o[0-7_]+|[0-9][0-9_]*)(?:[ui](?:8|16|32|64|128|size))?(?![A-Za-z0-9_.]|\.[0-9])", txt):
+                s = m.group(1).replace("_", "")
+                try:
+                    v = int(s, 0) if s[:2] in ("0x", "0b", "0o") else int(s)
+                except ValueError:
+                    continue
+                out.add(v)
+            # shifts and products that spell a size: 1 << 16, 16 * 1024, 4 * 1024 * 1024
+            for m in re.finditer(r"\b([0-9][0-9_]*)\s*<<\s*([0-9]{1,2})\b", txt):
+                out.add(int(m.group(1).replace("_", "")) << int(m.group(2)))
+            for m in re.finditer(r"\b([0-9][0-9_]*)((?:\s*\*\s*[0-9][0-9_]*){1,3})", txt):
+                v = int(m.group(1).replace("_", ""))
+                for x in re.findall(r"[0-9][0-9_]*", m.group(2)):
+                    v *= int(x.replace("_", ""))
+                out.add(v)
+    return out
+
+
+def new_literals(cap=10):
+    """literals of the current tree that the reconciled tree did not contain (empty on the unchanged tree), most telling first"""
+    import json
+    try:
+        base = set(json.load(open(FINGERPRINTS)).get("literals", []))
+    except (OSError, ValueError):
+        return []
+    new = sorted(v for v in source_literals() - base if 9 <= v < (1 << 64))
+    # prefer numbers that look like thresholds (not 2^k-1 masks of small width), keep a spread of magnitudes
+    new.sort(key=lambda v: (v < 17, -len(str(v))))
+    return new[:cap]
